@@ -155,6 +155,10 @@ impl Focus {
                 let mut f = b.boost(ActorKind::Scanner, 25).boost(ActorKind::TcpClient, 60);
                 f.mangle_pct = 30;
                 f.n_actors = (4, 12);
+                if prop == "C08" {
+                    // the same request again from / towards a slightly different endpoint
+                    f.twin_pm = 350;
+                }
                 f
             }
             "C09" => {
